@@ -1,5 +1,6 @@
 import RedisVerif.Model.Shards
 import RedisVerif.Model.ShardsStr
+import RedisVerif.Model.ShardsClock
 import RedisVerif.Lemmas.Shards
 import RedisVerif.Lemmas.ShardsStr
 
@@ -589,6 +590,41 @@ theorem C03_statement_repaired_counterexample : ¬ C03_statement Str.exec true :
   decide
 
 end counterexamples
+
+/-! ## per-shard clocks (timed streams; transcription in `Model/ShardsClock.lean`) -/
+
+section clock
+open Shards.Clock
+
+/-- shard count unobservable also when time passes and keys expire — kept as a statement: it is
+    NOT proved here (expiry is C01's model); the timed model is tied to the code by the C03
+    correspondence (timed streams) and the 1-vs-N oracle -/
+def C03_statement_timed (carries : Bool) : Prop :=
+  ∀ (R : Routes), R.Valid → 0 < R.N → ∀ steps : List (Nat × TCmd),
+    runNT R carries (tinit R.N) steps = runNT oneShard carries (tinit 1) steps
+
+/-- the fast / pooled messages did not carry the virtual time: `SET 1 v PX 100` at t = 0; at
+    t = 200 a generic `GET 2` (another shard) and then `fast_get 1` — one shard: nil (its clock was
+    advanced by the GET), two shards: the expired value (key 1's shard still thinks it is t = 0) -/
+theorem stale_clock_counterexample :
+    runNT twoRoutes false (tinit 2) [(0, .setPx 1 [118] 100), (200, .get 2), (200, .fastGet 1)]
+      = [.ok, .nil, .bulk [118]] ∧
+    runNT oneShard false (tinit 1) [(0, .setPx 1 [118] 100), (200, .get 2), (200, .fastGet 1)]
+      = [.ok, .nil, .nil] := by decide
+
+theorem C03_statement_timed_pinned_counterexample : ¬ C03_statement_timed false := by
+  intro h
+  have := h twoRoutes (ofTable_valid 2 _ (by decide) (by decide)) (by decide)
+    [(0, .setPx 1 [118] 100), (200, .get 2), (200, .fastGet 1)]
+  revert this
+  decide
+
+/-- with the virtual time carried by every message the same run agrees -/
+example : runNT twoRoutes true (tinit 2) [(0, .setPx 1 [118] 100), (200, .get 2), (200, .fastGet 1)]
+    = runNT oneShard true (tinit 1) [(0, .setPx 1 [118] 100), (200, .get 2), (200, .fastGet 1)] := by
+  decide
+
+end clock
 
 end C03
 end RedisVerif
